@@ -259,40 +259,46 @@ func (c *Ctx) resetMethods(pkgRel string) map[*types.Func]*resetMethod {
 		recv := info.Defs[fi.Decl.Recv.List[0].Names[0]]
 		var fields []string
 		pure := true
+		modelObjs := 0
 		for _, st := range fi.Decl.Body.List {
 			as, ok := st.(*ast.AssignStmt)
 			if !ok || len(as.Lhs) != 1 || len(as.Rhs) != 1 {
-				pure = false
-				break
+				continue // other statements do not make it less of a reset: what matters is which buffers it replaces
 			}
 			se, ok := as.Lhs[0].(*ast.SelectorExpr)
 			if !ok {
-				pure = false
-				break
+				continue
 			}
 			id, ok := se.X.(*ast.Ident)
 			if !ok || info.Uses[id] != recv {
-				pure = false
-				break
+				continue
 			}
 			fresh := false
 			switch r := ast.Unparen(as.Rhs[0]).(type) {
 			case *ast.UnaryExpr:
-				_, fresh = r.X.(*ast.CompositeLit)
+				if cl, isCL := r.X.(*ast.CompositeLit); isCL {
+					fresh = true
+					if tv, ok := info.Types[cl]; ok {
+						if n := namedOf(tv.Type); n != nil && n.Obj().Pkg() != nil && strings.HasSuffix(n.Obj().Pkg().Path(), "/writer/model") {
+							modelObjs++
+						}
+					}
+				}
 			case *ast.CompositeLit:
 				fresh = true
 			case *ast.CallExpr:
 				if fid, ok := r.Fun.(*ast.Ident); ok && fid.Name == "make" {
 					fresh = true
 				}
-			case *ast.BasicLit:
-				continue // scalar counters
 			}
 			if !fresh {
-				pure = false
-				break
+				continue
 			}
 			fields = append(fields, se.Sel.Name)
+		}
+		// a reset method replaces at least one row-model object of its receiver by a fresh one
+		if modelObjs == 0 {
+			pure = false
 		}
 		if pure && len(fields) > 0 {
 			if fn, ok := info.Defs[fi.Decl.Name].(*types.Func); ok {
@@ -323,7 +329,7 @@ func sentFields(s *ast.SendStmt) []string {
 var ruleA9 = &Rule{
 	ID:    "A9",
 	Floor: 5,
-	Doc: "flush before reset: in writer/utils/unmarshal every call of a reset method (a method that only assigns fresh buffers to receiver fields) made while parsing (i.e. not the initial reset before the parser goroutine is started) is preceded in the same block by a send on the response channel " +
+	Doc: "flush before reset: in writer/utils/unmarshal every call of a reset method (a method that replaces a row-model object held in a receiver field by a fresh one; other statements of the method do not matter) made while parsing (i.e. not the initial reset before the parser goroutine is started) is preceded in the same block by a send on the response channel " +
 		"whose payload references every buffer the reset replaces (directly, or through a flush method of the same receiver whose body is such a send); and the success path of each parser goroutine ends with such a send for the buffers initialised before it",
 	Run: func(c *Ctx) []Obl {
 		var obls []Obl
